@@ -85,7 +85,7 @@ def reference(spec, fields):
     return out
 
 
-def judge(spec, fields, missing=None):
+def judge(spec, fields, missing=None, nthread=None):
     from abacusnbody.data.pipe_asdf import unpack_to_pipe
     tmp = tempfile.mkdtemp(prefix='c20_', dir=os.environ.get('VV_WORK', None))
     try:
@@ -94,7 +94,7 @@ def judge(spec, fields, missing=None):
             fns = fns + [os.path.join(tmp, 'nope.asdf')]
         pipe = Pipe()
         try:
-            unpack_to_pipe(fns, list(fields), pipe=pipe, verbose=False)
+            unpack_to_pipe(fns, list(fields), pipe=pipe, verbose=False, **({} if nthread is None else dict(nthread=nthread)))
         except (FileNotFoundError, ValueError) as ex:
             wrote = len(pipe.getvalue()) if not pipe.closed else len(pipe.final)
             if missing is None:
@@ -176,6 +176,12 @@ def check(run):
                 nev += 1
                 if why and not bad:
                     bad = (dict(fields=list(fields), shapes=[{k: [list(v.shape), v.dtype.name] for k, v in d.items()} for d in spec]), why)
+        # a field may be requested more than once: one complete record per request, in request order
+        for fields in (['a', 'a'], ['a', 'b', 'a'], ['c', 'c', 'b']):
+            why = judge(spec, fields)
+            nev += 1
+            if why and not bad:
+                bad = (dict(fields=fields, shapes=[{k: [list(v.shape), v.dtype.name] for k, v in d.items()} for d in spec]), why)
         if len(samples) < 2:
             samples.append([{k: [list(v.shape), v.dtype.name] for k, v in d.items()} for d in spec])
         # missing field (not first in the list) and missing file: error before any byte
@@ -190,10 +196,20 @@ def check(run):
             bad = (dict(missing='file'), why)
         if bad:
             break
+    # more input files than decompression threads (default nthread=4; explicit 1 and 2): payloads stay in argument order
+    if not bad:
+        rng = np.random.default_rng(run.seed + 21)
+        many = [dict(a=np.full(3 + k, 10 * k + 1, dtype=np.int16), b=rng.integers(0, 200, (k % 3, 2)).astype(np.float32), c=np.arange(k, dtype=np.uint8)) for k in range(7)]
+        distinct += 1
+        for nfiles, nt in ((5, None), (7, None), (3, 2), (4, 1), (7, 3)):
+            why = judge(many[:nfiles], ['a', 'b', 'c'], nthread=nt)
+            nev += 1
+            if why and not bad:
+                bad = (dict(files=nfiles, nthread=nt), f'{nfiles} files, nthread={nt}: {why}')
     if bad:
         run.bounded_violation('pipe framing', bad[0], bad[1])
     run.add_bounded('real unpack_to_pipe into an in-memory pipe vs byte-level reference', nev, distinct,
-                    '1-3 files x 3 columns (1-D / 2-D / 3-D / 4-D, item widths 1..16, lengths {0,1,2,5,17}, a column empty in every file) x every ordered field subset; one pair of files with columns of more than 2^20 values (1-D, (N,3), (N,2,2)); missing field (first / later) and missing file',
+                    '1-3 files x 3 columns (1-D / 2-D / 3-D / 4-D, item widths 1..16, lengths {0,1,2,5,17}, a column empty in every file) x every ordered field subset; one pair of files with columns of more than 2^20 values (1-D, (N,3), (N,2,2)); repeated fields; 3-7 files with nthread default / 1 / 2 / 3; missing field (first / later) and missing file',
                     samples)
     run.extra['explanation'] = ('validation-dominates-write decided for all inputs by a structural analysis of the real AST; the framing itself by bounded '
                                 'run-time contract evaluation on synthetic files')
